@@ -294,6 +294,11 @@ impl<'tcx> Cx<'tcx> {
                 let fty = tcx.type_of(f.did).instantiate_identity().skip_norm_wip();
                 let _ = write!(s, "{{\"name\":{},\"vis\":{},\"ty\":{}}}", esc(f.name.as_str()), esc(&format!("{:?}", f.vis)), self.ty(fty));
             }
+            s.push_str("],\"variants\":[");
+            for (i, v) in adt.variants().iter().enumerate() {
+                if i > 0 { s.push(','); }
+                s.push_str(&esc(v.name.as_str()));
+            }
             s.push_str("]}");
         }
         s.push_str("],\"impls\":[");
